@@ -295,4 +295,62 @@ let dispatch (name : string) (a : string array) : string =
     let p = get_params a in let g = get_pairs a in
     cat [out_num (SlurryCalc.coq_Rsd fN p); out_num (SlurryCalc.rhom fN p); out_num (SlurryCalc.coq_Cvi fN p);
          out_num (SlurryCalc.coq_Dmean fN g)]
+  | "Viewer.run" ->
+    (* sf sq npipes {ndiam diam.. params salt GSD gsd_dirty} sel ntexts {hex parsed|None} nevents events
+       reply: the state after start and after every event:
+         Dp rhos rhoi Cv D50 D15 D85 salt radio overflow tDp tD15 tD50 tD85 tRhos tRhom tCv   |  "raised <Exn>" (then stops) *)
+    let sf = get_bool a in let sq = get_bool a in
+    let np = get_int a in
+    let pls = Stdlib.List.init np (fun _ ->
+      let nd = get_int a in
+      let ds = Stdlib.List.init nd (fun _ -> get_num a) in
+      let p = get_params a in let is_salt = get_bool a in let g = get_pairs a in let dirty = get_bool a in
+      let s = { SlurryState.sp = p; salt = is_salt; s_gsd = g; gsd_dirty = dirty; s_curves = None; curves_dirty = true } in
+      { Viewer.diams = ds; sl = s }) in
+    let sel = get_int a in
+    let nt = get_int a in
+    let table = Stdlib.List.init nt (fun _ -> let t = unhex (next a) in let v = get_opt a in (t, v)) in
+    let parse (cs : String.string) : float option =
+      let t = ocaml_string cs in
+      match Stdlib.List.assoc_opt t table with
+      | Some v -> v
+      | None -> (try Some (float_of_string t) with _ -> None) in
+    let pyfmt prec x =
+      if Float.is_nan x then "nan" else Printf.sprintf "%.*f" prec x in
+    let fmt3 x = coq_string (pyfmt 3 x) in
+    let fmt0 x = coq_string (pyfmt 0 x) in
+    let fmtZ z = coq_string (string_of_int (int_of_z z)) in
+    let widget = function
+      | "Dp_input" -> Viewer.WDp | "D15_input" -> Viewer.WD15 | "D50_input" -> Viewer.WD50 | "D85_input" -> Viewer.WD85
+      | "rhos_input" -> Viewer.WRhos | "rhom_input" -> Viewer.WRhom | "Cv_input" -> Viewer.WCv
+      | x -> failwith ("widget " ^ x) in
+    let dump (v : float Viewer.vstate) : string =
+      let p = Viewer.par v in
+      let (v1, d15) = Viewer.rdx fN sf sq v (Viewer.f15 fN) in
+      let (_, d85) = Viewer.rdx fN sf sq v1 (Viewer.f85 fN) in
+      cat [out_num p.SlurryCalc.p_Dp; out_num p.SlurryCalc.p_rhos; out_num p.SlurryCalc.p_rhoi; out_num p.SlurryCalc.p_Cv;
+           out_num p.SlurryCalc.p_D50; out_num d15; out_num d85; out_bool (Viewer.slurry v).SlurryState.salt;
+           out_bool v.Viewer.radio; out_bool v.Viewer.overflow;
+           ostr v.Viewer.tDp; ostr v.Viewer.tD15; ostr v.Viewer.tD50; ostr v.Viewer.tD85; ostr v.Viewer.tRhos;
+           ostr v.Viewer.tRhom; ostr v.Viewer.tCv] in
+    let buf = Buffer.create 4096 in
+    let p0 = Stdlib.List.nth pls sel in
+    let v = ref (Viewer.start fN sf sq fmt3 fmtZ pls (nat_of_int sel) p0) in
+    Buffer.add_string buf (dump !v);
+    let ne = get_int a in
+    (try
+      for _ = 1 to ne do
+        let e = match next a with
+          | "text" -> let w = widget (next a) in Viewer.EText (w, get_str a)
+          | "DpUp" -> Viewer.EDpUp | "DpDown" -> Viewer.EDpDown | "D50Up" -> Viewer.ED50Up | "D50Down" -> Viewer.ED50Down
+          | "CvUp" -> Viewer.ECvUp | "CvDown" -> Viewer.ECvDown
+          | "fluid" -> Viewer.EFluid (get_bool a) | "units" -> Viewer.EUnits (get_bool a)
+          | "pipeline" -> Viewer.EPipeline (nat_of_int (get_int a))
+          | x -> failwith ("event " ^ x) in
+        (match (try Ok (Viewer.fire fN sf sq fmt3 fmt0 fmtZ parse !v e) with Py m -> Error m) with
+         | Ok v1 -> v := v1; Buffer.add_string buf (" | " ^ dump v1)
+         | Error m -> Buffer.add_string buf (" | raised " ^ m); raise Exit)
+      done
+    with Exit -> ());
+    Buffer.contents buf
   | _ -> raise Not_found
